@@ -168,6 +168,79 @@ theorem groupDups_grouped {s : HG} (h : s.edges.Nodup) : Grouped s (groupDups s)
   have := foldl_grouped (s := s) s.edges [] [] ⟨by simp, by simp, by simp, by simp⟩ (by simpa using h)
   simpa using this
 
+/-- different classes hold no two duplicate edges -/
+def Separated (s : HG) (gs : List (List PyId)) : Prop :=
+  gs.Pairwise (fun g g' => ∀ x ∈ g, ∀ y ∈ g', ¬ Dup s x y)
+
+theorem classOf_false_not_dup {s : HG} {gs : List (List PyId)} {p : List PyId} (h : Grouped s gs p) {g : List PyId}
+    (hg : g ∈ gs) {e : PyId} (hc : classOf s e g = false) : ∀ x ∈ g, ¬ Dup s x e := by
+  cases g with
+  | nil => intro x hx; cases hx
+  | cons r t =>
+    intro x hx hd
+    have h1 : Dup s r x := h.dup _ hg r (by simp) x hx
+    have : Dup s r e := h1.trans hd
+    simp only [classOf] at hc
+    unfold Dup at this
+    rw [hc] at this; cases this
+
+theorem groupStep_separated {s : HG} {gs : List (List PyId)} {p : List PyId} (h : Grouped s gs p)
+    (hs : Separated s gs) (e : PyId) : Separated s (groupStep s gs e) := by
+  unfold groupStep Separated at *
+  split
+  · rw [List.pairwise_map]
+    refine hs.imp_of_mem ?_
+    intro g1 g2 hg1 hg2 hsep x hx y hy hd
+    have n1 := h.nonempty g1 hg1
+    have n2 := h.nonempty g2 hg2
+    by_cases c1 : classOf s e g1 = true <;> by_cases c2 : classOf s e g2 = true
+    · -- both classes claim e: their heads are duplicates of each other
+      obtain ⟨a, ha⟩ := List.exists_mem_of_ne_nil g1 n1
+      obtain ⟨b, hb⟩ := List.exists_mem_of_ne_nil g2 n2
+      exact hsep a ha b hb ((classOf_dup h hg1 c1 a ha).trans (classOf_dup h hg2 c2 b hb).symm)
+    · rw [if_pos c1] at hx; rw [if_neg c2] at hy
+      simp only [List.mem_append, List.mem_singleton] at hx
+      rcases hx with hx | rfl
+      · exact hsep x hx y hy hd
+      · obtain ⟨a, ha⟩ := List.exists_mem_of_ne_nil g1 n1
+        exact hsep a ha y hy ((classOf_dup h hg1 c1 a ha).trans hd)
+    · rw [if_neg c1] at hx; rw [if_pos c2] at hy
+      simp only [List.mem_append, List.mem_singleton] at hy
+      rcases hy with hy | rfl
+      · exact hsep x hx y hy hd
+      · obtain ⟨b, hb⟩ := List.exists_mem_of_ne_nil g2 n2
+        exact hsep x hx b hb (hd.trans (classOf_dup h hg2 c2 b hb).symm)
+    · rw [if_neg c1] at hx; rw [if_neg c2] at hy
+      exact hsep x hx y hy hd
+  · rename_i hany
+    rw [List.pairwise_append]
+    refine ⟨hs, by simp, ?_⟩
+    intro g hg g' hg' x hx y hy
+    simp only [List.mem_singleton] at hg'; subst hg'
+    simp only [List.mem_singleton] at hy; subst hy
+    have : classOf s y g = false := by
+      have := hany
+      simp only [Bool.not_eq_true, List.any_eq_false] at this
+      cases hc : classOf s y g
+      · rfl
+      · exact absurd hc (by simpa using this g hg)
+    exact classOf_false_not_dup h hg this x hx
+
+theorem foldl_separated {s : HG} (l : List PyId) (gs : List (List PyId)) (p : List PyId) (h : Grouped s gs p)
+    (hs : Separated s gs) (hn : (p ++ l).Nodup) : Separated s (l.foldl (groupStep s) gs) := by
+  induction l generalizing gs p with
+  | nil => exact hs
+  | cons e l ih =>
+    simp only [List.foldl_cons]
+    have he : e ∉ p := by
+      rw [List.nodup_append] at hn
+      intro hp; exact hn.2.2 e hp e (by simp) rfl
+    exact ih (groupStep s gs e) (p ++ [e]) (groupStep_grouped h e he) (groupStep_separated h hs e) (by simpa using hn)
+
+theorem groupDups_separated {s : HG} (h : s.edges.Nodup) : Separated s (groupDups s) := by
+  rw [groupDups_eq]
+  exact foldl_separated (s := s) s.edges [] [] ⟨by simp, by simp, by simp, by simp⟩ List.Pairwise.nil (by simpa using h)
+
 /-- an edge in a class of more than one edge has a duplicate different from itself -/
 theorem has_twin {s : HG} (h : s.edges.Nodup) {g : List PyId} (hg : g ∈ groupDups s) (hl : 1 < g.length)
     {e : PyId} (he : e ∈ g) : ∃ f ∈ s.edges, f ≠ e ∧ Dup s e f := by
@@ -519,6 +592,325 @@ theorem merge_induct {s : HG} (h : Inv s) (P : HG → Prop) (rename : Rename) (r
       split at hr
       · cases hr; exact p2
       · cases hr; exact p2
+
+/-! ### `rename="new"`: no duplicates are left -/
+
+/-- removing a duplicate-free list of existing edges never raises and removes exactly those -/
+theorem removeEdgesFrom_complete (l : List PyId) (s : HG) (hl : l.Nodup) (hin : ∀ x ∈ l, x ∈ s.edges) :
+    (removeEdgesFrom s l).2 = .ok ∧ ∀ x, x ∈ (removeEdgesFrom s l).1.edges ↔ x ∈ s.edges ∧ x ∉ l := by
+  unfold removeEdgesFrom
+  induction l generalizing s with
+  | nil => exact ⟨rfl, by intro x; simp [bulk]⟩
+  | cons e l ih =>
+    have he : e ∈ s.edges := hin e (by simp)
+    have hstep : removeEdge s e = (dropEdge s e, .ok) := by simp [removeEdge, he]
+    have hedges : ∀ x, x ∈ (dropEdge s e).edges ↔ x ∈ s.edges ∧ x ≠ e := by
+      intro x; simp only [dropEdge, mem_rm]; tauto
+    have hel : e ∉ l := (List.nodup_cons.mp hl).1
+    obtain ⟨o, hx⟩ := ih (dropEdge s e) (List.nodup_cons.mp hl).2
+      (by intro x hx; rw [hedges]; exact ⟨hin x (by simp [hx]), by rintro rfl; exact hel hx⟩)
+    simp only [bulk, hstep]
+    refine ⟨by rw [o]; rfl, ?_⟩
+    intro x; rw [hx x, hedges x]; simp only [List.mem_cons]; tauto
+
+
+
+def NoDupEdges (u : HG) : Prop := ∀ e ∈ u.edges, ∀ f ∈ u.edges, e ≠ f → ¬ sameSet (u.mem e) (u.mem f) = true
+
+theorem addEdgesItem_f4_fresh (attr : Attrs) (u : HG) (it : EdgeItem) (i : PyId) (hi : it.idx = some i)
+    (hf : i ∉ u.edges) (h0 : i ≠ .none) (hm : PyId.none ∉ it.members) :
+    addEdgesItem .f4 attr u it = (bumpUid (addEdgeAt u i (dedup it.members) (attr.update it.attr)) i, .ok) := by
+  unfold addEdgesItem
+  simp [Fmt.explicit, hi, hf, h0, hm]
+
+theorem bulk_add_fresh_nodup (attr : Attrs) (items : List EdgeItem) {u : HG} (hu : Inv u) (hND : NoDupEdges u)
+    (hfresh : ∀ it ∈ items, ∃ i, it.idx = some i ∧ i ∉ u.edges ∧ i ≠ .none ∧ PyId.none ∉ it.members)
+    (hidx : items.Pairwise (fun a b => a.idx ≠ b.idx))
+    (hmem : items.Pairwise (fun a b => ¬ sameSet a.members b.members = true))
+    (hold : ∀ it ∈ items, ∀ e ∈ u.edges, ¬ sameSet (u.mem e) it.members = true) :
+    (bulk (addEdgesItem .f4 attr) u items).2 = .ok ∧ NoDupEdges (bulk (addEdgesItem .f4 attr) u items).1 := by
+  induction items generalizing u with
+  | nil => exact ⟨rfl, hND⟩
+  | cons it items ih =>
+    obtain ⟨i, hi, hf, h0, hm⟩ := hfresh it (by simp)
+    have hstep := addEdgesItem_f4_fresh attr u it i hi hf h0 hm
+    have hinv := addEdgesItem_inv .f4 attr u it hu
+    have hk := addEdgesItem_keeps .f4 attr u it hu
+    have hnm := addEdgesItem_new_members .f4 attr u it
+    rw [hstep] at hinv hk hnm
+    simp only at hinv hk hnm
+    generalize hu' : bumpUid (addEdgeAt u i (dedup it.members) (attr.update it.attr)) i = u' at *
+    have hedges : u'.edges = u.edges ++ [i] := by
+      rw [← hu', bumpUid_edges, (addEdgeAt_edges _ _ _ _).1]
+    have hnew : ∀ x, x ∈ u'.mem i ↔ x ∈ it.members := by
+      rcases hnm i (by rw [hedges]; simp) with h | h
+      · exact absurd h hf
+      · exact h
+    have hND' : NoDupEdges u' := by
+      intro e he f hf' hne hs
+      rw [hedges] at he hf'
+      simp only [List.mem_append, List.mem_singleton] at he hf'
+      rcases he with he | rfl <;> rcases hf' with hf' | rfl
+      · rw [(hk.2 e he).1, (hk.2 f hf').1] at hs; exact hND e he f hf' hne hs
+      · rw [(hk.2 e he).1] at hs
+        refine hold it (by simp) e he ((sameSet_iff _ _).mpr ?_)
+        intro x; rw [(sameSet_iff _ _).mp hs x]; exact hnew x
+      · rw [(hk.2 f hf').1] at hs
+        refine hold it (by simp) f hf' ((sameSet_iff _ _).mpr ?_)
+        intro x; rw [← (sameSet_iff _ _).mp hs x]; exact hnew x
+      · exact hne rfl
+    have := ih (u := u') hinv hND'
+      (by intro it' hit'
+          obtain ⟨j, hj, hjf, hj0, hjm⟩ := hfresh it' (by simp [hit'])
+          refine ⟨j, hj, ?_, hj0, hjm⟩
+          rw [hedges]; simp only [List.mem_append, List.mem_singleton, not_or]
+          refine ⟨hjf, ?_⟩
+          rintro rfl
+          exact (List.rel_of_pairwise_cons hidx hit') (by rw [hi, hj]))
+      (List.Pairwise.of_cons hidx) (List.Pairwise.of_cons hmem)
+      (by intro it' hit' e he
+          rw [hedges] at he
+          simp only [List.mem_append, List.mem_singleton] at he
+          rcases he with he | rfl
+          · rw [(hk.2 e he).1]; exact hold it' (by simp [hit']) e he
+          · intro hs
+            refine (List.rel_of_pairwise_cons hmem hit') ((sameSet_iff _ _).mpr ?_)
+            intro x; rw [← hnew x]; exact (sameSet_iff _ _).mp hs x)
+    simp only [bulk, hstep]
+    exact ⟨by rw [this.1]; rfl, this.2⟩
+
+
+
+structure LoopInv (s0 s : HG) (gs : List (List PyId)) (dups : List PyId) (news : List EdgeItem) : Prop where
+  state : ∃ k, s = { s0 with uid := k } ∧ s0.uid ≤ k
+  idx : ∀ it ∈ news, ∃ k : Nat, EdgeItem.idx it = some (PyId.int k) ∧ s0.uid ≤ k ∧ k < s.uid
+  idxP : news.Pairwise (fun a b => EdgeItem.idx a ≠ EdgeItem.idx b)
+  memP : news.Pairwise (fun a b => ¬ sameSet (EdgeItem.members a) (EdgeItem.members b) = true)
+  src : ∀ it ∈ news, ∃ x ∈ dups, EdgeItem.members it = s0.mem x
+  ahead : ∀ it ∈ news, ∀ g ∈ gs, ∀ x ∈ g, ¬ sameSet (EdgeItem.members it) (s0.mem x) = true
+  dnodup : dups.Nodup
+  dahead : ∀ x ∈ dups, ∀ g ∈ gs, x ∉ g
+  dsrc : ∀ x ∈ dups, x ∈ s0.edges
+
+theorem mergeGroup_new (rule : MergeRule) (mult : Option String) (s : HG) (r : PyId) (t : List PyId) (s2 : HG)
+    (it : EdgeItem) (h : mergeGroup .new rule mult s (r :: t) = (s2, .ok it)) :
+    s2 = { s with uid := s.uid + 1 } ∧ it.members = s.mem r ∧ it.idx = some (PyId.int s.uid) := by
+  simp only [mergeGroup, mergeNewId] at h
+  split at h
+  · cases h
+  · simp only [Prod.mk.injEq, Except.ok.injEq] at h
+    obtain ⟨h1, h2⟩ := h
+    subst h2
+    exact ⟨h1.symm, rfl, rfl⟩
+
+theorem mergeLoop_new (rule : MergeRule) (mult : Option String) (s0 : HG) (gs : List (List PyId))
+    (hsep : Separated s0 gs) (hG : ∀ g ∈ gs, g.Nodup ∧ ∀ x ∈ g, x ∈ s0.edges)
+    (s : HG) (dups : List PyId) (news : List EdgeItem) (hI : LoopInv s0 s gs dups news)
+    (s' : HG) (d' : List PyId) (n' : List EdgeItem)
+    (h : mergeLoop .new rule mult s gs dups news = (s', .ok (d', n'))) :
+    LoopInv s0 s' [] d' n' ∧ (∀ x ∈ dups, x ∈ d') ∧ (∀ g ∈ gs, 1 < g.length → ∀ x ∈ g, x ∈ d') := by
+  induction gs generalizing s dups news with
+  | nil =>
+    simp only [mergeLoop, Prod.mk.injEq, Except.ok.injEq] at h
+    obtain ⟨h1, h2, h3⟩ := h
+    subst h1; subst h2; subst h3
+    exact ⟨hI, fun _ hx => hx, by simp⟩
+  | cons g gs ih =>
+    have hsep' : Separated s0 gs := List.Pairwise.of_cons hsep
+    have hhead : ∀ g'' ∈ gs, ∀ x ∈ g, ∀ y ∈ g'', ¬ Dup s0 x y := fun g'' hg'' => List.rel_of_pairwise_cons hsep hg''
+    have hG' : ∀ g ∈ gs, g.Nodup ∧ ∀ x ∈ g, x ∈ s0.edges := fun g' hg' => hG g' (by simp [hg'])
+    simp only [mergeLoop] at h
+    split at h
+    · rename_i hlen
+      have hI' : LoopInv s0 s gs dups news :=
+        { hI with ahead := fun it hit g' hg' => hI.ahead it hit g' (by simp [hg']),
+                  dahead := fun x hx g' hg' => hI.dahead x hx g' (by simp [hg']) }
+      obtain ⟨a, b, c⟩ := ih hsep' hG' s dups news hI' h
+      refine ⟨a, b, ?_⟩
+      intro g' hg' hl
+      rcases List.mem_cons.mp hg' with rfl | hg'
+      · omega
+      · exact c g' hg' hl
+    · rename_i hlen
+      split at h
+      · cases h
+      · rename_i s2 it heq
+        cases g with
+        | nil => simp at hlen
+        | cons r t =>
+          obtain ⟨e1, e2, e3⟩ := mergeGroup_new rule mult s r t s2 it heq
+          obtain ⟨k, hk, hk0⟩ := hI.state
+          have hmem : s.mem = s0.mem := by rw [hk]
+          have huid : s.uid = k := by rw [hk]
+          have hgn := (hG (r :: t) (by simp)).1
+          have hge := (hG (r :: t) (by simp)).2
+          have hI' : LoopInv s0 s2 gs (dups ++ (r :: t)) (news ++ [it]) := by
+            constructor
+            · exact ⟨k + 1, by rw [e1, hk], by omega⟩
+            · intro it' hit'
+              rcases List.mem_append.mp hit' with hit' | hit'
+              · obtain ⟨k', a, b, c⟩ := hI.idx it' hit'
+                exact ⟨k', a, b, by rw [e1]; simp only; omega⟩
+              · simp only [List.mem_singleton] at hit'; subst hit'
+                exact ⟨s.uid, e3, by omega, by rw [e1]; simp⟩
+            · rw [List.pairwise_append]
+              refine ⟨hI.idxP, by simp, ?_⟩
+              intro a ha b hb
+              simp only [List.mem_singleton] at hb; subst hb
+              obtain ⟨k', a1, _, a3⟩ := hI.idx a ha
+              rw [a1, e3]; intro hc
+              simp only [Option.some.injEq, PyId.int, PyId.atom.injEq, Atom.int.injEq] at hc
+              omega
+            · rw [List.pairwise_append]
+              refine ⟨hI.memP, by simp, ?_⟩
+              intro a ha b hb
+              simp only [List.mem_singleton] at hb; subst hb
+              rw [e2, hmem]
+              exact hI.ahead a ha (r :: t) (by simp) r (by simp)
+            · intro it' hit'
+              rcases List.mem_append.mp hit' with hit' | hit'
+              · obtain ⟨x, hx, hm⟩ := hI.src it' hit'
+                exact ⟨x, by simp [hx], hm⟩
+              · simp only [List.mem_singleton] at hit'; subst hit'
+                exact ⟨r, by simp, by rw [e2, hmem]⟩
+            · intro it' hit' g' hg' x hx
+              rcases List.mem_append.mp hit' with hit' | hit'
+              · exact hI.ahead it' hit' g' (by simp [hg']) x hx
+              · simp only [List.mem_singleton] at hit'; subst hit'
+                rw [e2, hmem]
+                exact hhead g' hg' r (by simp) x hx
+            · rw [List.nodup_append]
+              refine ⟨hI.dnodup, hgn, ?_⟩
+              intro a ha b hb hab
+              subst hab
+              exact hI.dahead a ha (r :: t) (by simp) hb
+            · intro x hx g' hg'
+              rcases List.mem_append.mp hx with hx | hx
+              · exact hI.dahead x hx g' (by simp [hg'])
+              · intro hxg'
+                exact hhead g' hg' x hx x hxg' (Dup.refl s0 x)
+            · intro x hx
+              rcases List.mem_append.mp hx with hx | hx
+              · exact hI.dsrc x hx
+              · exact hge x hx
+          obtain ⟨a, b, c⟩ := ih hsep' hG' s2 (dups ++ (r :: t)) (news ++ [it]) hI' h
+          refine ⟨a, fun x hx => b x (by simp [hx]), ?_⟩
+          intro g' hg' hl x hx
+          rcases List.mem_cons.mp hg' with rfl | hg'
+          · exact b x (by simp only [List.mem_append]; exact Or.inr hx)
+          · exact c g' hg' hl x hx
+
+
+
+theorem pairwise_mem_or {α : Type} {R : α → α → Prop} {l : List α} (h : l.Pairwise R) {a b : α}
+    (ha : a ∈ l) (hb : b ∈ l) (hne : a ≠ b) : R a b ∨ R b a := by
+  induction l with
+  | nil => cases ha
+  | cons x l ih =>
+    rcases List.mem_cons.mp ha with rfl | ha' <;> rcases List.mem_cons.mp hb with rfl | hb'
+    · exact absurd rfl hne
+    · exact Or.inl (List.rel_of_pairwise_cons h hb')
+    · exact Or.inr (List.rel_of_pairwise_cons h ha')
+    · exact ih (List.Pairwise.of_cons h) ha' hb'
+
+/-- an edge that the loop did not collect has no duplicate at all -/
+theorem survivor_unique {s : HG} (hE : s.edges.Nodup) (d : List PyId)
+    (hall : ∀ g ∈ groupDups s, 1 < g.length → ∀ x ∈ g, x ∈ d) {e : PyId} (he : e ∈ s.edges) (hd : e ∉ d) :
+    ∀ y ∈ s.edges, y ≠ e → ¬ Dup s e y := by
+  have G := groupDups_grouped hE
+  have S := groupDups_separated hE
+  obtain ⟨g, hg, heg⟩ := (G.cover e).mpr he
+  have hlen : g.length ≤ 1 := by
+    rcases Nat.lt_or_ge 1 g.length with hc | hc
+    · exact absurd (hall g hg hc e heg) hd
+    · exact hc
+  have hge : g = [e] := by
+    match g, hlen, heg with
+    | [a], _, heg => simp only [List.mem_singleton] at heg; rw [heg]
+  intro y hy hne hdup
+  obtain ⟨g', hg', hyg'⟩ := (G.cover y).mpr hy
+  by_cases hgg : g = g'
+  · rw [← hgg, hge] at hyg'; simp only [List.mem_singleton] at hyg'; exact hne hyg'
+  · rcases pairwise_mem_or S hg hg' hgg with h1 | h1
+    · exact h1 e heg y hyg' hdup
+    · exact h1 y hyg' e heg hdup.symm
+
+
+
+/-- **`merge_duplicate_edges(rename="new")` that returns leaves no two edges with the same member set** -/
+theorem merge_new_no_duplicates_aux {s : HG} (h : Inv s) (rule : MergeRule) (mult : Option String)
+    (r : HG × Outcome) (hr : mergeDuplicateEdges s .new rule mult = some r) (hok : r.2.isErr = false) :
+    NoDupEdges r.1 := by
+  unfold mergeDuplicateEdges at hr
+  have hl := mergeLoop_inv .new rule mult (groupDups s) h [] []
+  have G := groupDups_grouped h.1.nodupE
+  have S := groupDups_separated h.1.nodupE
+  split at hr
+  · cases hr
+  · cases hr; simp [Outcome.isErr] at hok
+  · cases hr; simp [Outcome.isErr] at hok
+  · rename_i s' dups news heq
+    rw [heq] at hl
+    simp only [] at hr hl
+    have hI0 : LoopInv s s (groupDups s) [] [] :=
+      { state := ⟨s.uid, rfl, Nat.le_refl _⟩, idx := by simp, idxP := List.Pairwise.nil, memP := List.Pairwise.nil,
+        src := by simp, ahead := by simp, dnodup := List.nodup_nil, dahead := by simp, dsrc := by simp }
+    obtain ⟨L, _, hall⟩ := mergeLoop_new rule mult s (groupDups s) S
+      (fun g hg => ⟨G.nodup g hg, fun x hx => (G.cover x).mp ⟨g, hg, hx⟩⟩) s [] [] hI0 s' dups news heq
+    obtain ⟨k, hk, hk0⟩ := L.state
+    have hedges' : s'.edges = s.edges := by rw [hk]
+    have hmem' : s'.mem = s.mem := by rw [hk]
+    have huid' : s'.uid = k := by rw [hk]
+    -- removal phase
+    have hc := removeEdgesFrom_complete dups s' L.dnodup (by intro x hx; rw [hedges']; exact L.dsrc x hx)
+    have hfld := removeEdgesFrom_fields dups s'
+    have hinv1 : Inv (removeEdgesFrom s' dups).1 := removeEdgesFrom_inv hl _
+    generalize ht : removeEdgesFrom s' dups = r1 at hc hfld hinv1 hr
+    obtain ⟨t, o1⟩ := r1
+    simp only at hc hfld hinv1
+    obtain ⟨ho1, hed⟩ := hc
+    subst ho1
+    have hmemt : t.mem = s.mem := hfld.2.1.trans hmem'
+    have hsurv : ∀ e ∈ t.edges, e ∈ s.edges ∧ e ∉ dups := by
+      intro e he; have := (hed e).mp he; rw [hedges'] at this; exact this
+    have hND1 : NoDupEdges t := by
+      intro e he f hf hne hs
+      obtain ⟨he1, he2⟩ := hsurv e he
+      obtain ⟨hf1, _⟩ := hsurv f hf
+      rw [hmemt] at hs
+      exact survivor_unique h.1.nodupE dups hall he1 he2 f hf1 (Ne.symm hne) hs
+    have hadd := bulk_add_fresh_nodup [] news hinv1 hND1
+      (by intro it hit
+          obtain ⟨k', a1, a2, _⟩ := L.idx it hit
+          obtain ⟨x, hx, hm⟩ := L.src it hit
+          refine ⟨PyId.int k', a1, ?_, by simp [PyId.int], ?_⟩
+          · intro hin
+            have := h.2 k' (hsurv _ hin).1
+            omega
+          · rw [hm]; intro hn
+            exact h.1.noNoneN (h.1.e2n x (L.dsrc x hx) _ hn).1)
+      L.idxP L.memP
+      (by intro it hit e he
+          obtain ⟨x, hx, hm⟩ := L.src it hit
+          obtain ⟨he1, he2⟩ := hsurv e he
+          rw [hmemt, hm]
+          exact survivor_unique h.1.nodupE dups hall he1 he2 x (L.dsrc x hx) (by rintro rfl; exact he2 hx))
+    -- assemble
+    by_cases hfz : s'.frozen = true
+    · simp only [guardF, hfz, if_true, Outcome.isErr] at hr
+      cases hr; simp [Outcome.isErr] at hok
+    · simp only [guardF, hfz, Bool.false_eq_true, if_false, Outcome.isErr] at hr
+      by_cases hfz2 : t.frozen = true
+      · simp only [hfz2, if_true] at hr
+        cases hr; simp [Outcome.isErr] at hok
+      · simp only [hfz2, Bool.false_eq_true, if_false, addEdgesFrom_f4_eq] at hr
+        split at hr
+        · cases hr
+          rename_i he
+          rw [hadd.1] at he
+          cases he
+        · cases hr; exact hadd.2
+
 
 end HG
 end Xgi
